@@ -191,6 +191,26 @@ class CFG:
                     changed = True
         return dom
 
+    def must_before(self, gen: Dict[int, Set[str]]) -> Dict[int, Set[str]]:
+        """Forward must-analysis: for each node, the facts generated on *every* path from the entry
+        to (not including) that node.  gen maps node id -> facts it generates."""
+        reach = self.reachable(self.entry)
+        universe: Set[str] = set().union(*gen.values()) if gen else set()
+        IN: Dict[int, Set[str]] = {n: set(universe) for n in reach}
+        IN[self.entry] = set()
+        changed = True
+        while changed:
+            changed = False
+            for n in sorted(reach):
+                if n == self.entry:
+                    continue
+                ps = [p for p in self.nodes[n].pred if p in reach]
+                new = set.intersection(*((IN[p] | gen.get(p, set())) for p in ps)) if ps else set()
+                if new != IN[n]:
+                    IN[n] = new
+                    changed = True
+        return IN
+
     def reachable(self, start: int, avoid: Optional[Set[int]] = None) -> Set[int]:
         seen = {start}
         stack = [start]
